@@ -1169,7 +1169,8 @@ func commitLock(batch *leveldb.Batch, lock mvccLock, key []byte, startTS, commit
 	switch lock.op {
 	case kvrpcpb.Op_Put:
 		valueType = typePut
-	case kvrpcpb.Op_Lock:
+	case kvrpcpb.Op_Lock, kvrpcpb.Op_PessimisticLock:
+		// committing a leftover pessimistic lock must not change data
 		valueType = typeLock
 	default:
 		valueType = typeDelete
